@@ -74,6 +74,8 @@ STATEMENT_STATUS: Dict[str, str] = {
     "C02_chain": "proved (round 6): read_xref_from over a chain of ANY number of plain / hybrid revisions returns the sections newest first "
                  "(table before its XRefStm stream) and visits exactly their positions",
     "C02_chain_checked": "proved (round 6): same with the executable hypothesis chainOf evaluated per file (q.chain)",
+    "C02_table_lists": "proved (round 6): SecLists derived for classic tables from the bytes read (any subsections holding the same pairs "
+                       "as the writer's entry list); hypothesis sameAssocB evaluated per table (q.tablelists)",
     "C02_table_represents / C02_stream_represents": "proved (round 2): SecRep follows from what the writer wrote",
     "C02_row_types / C02_inuse_types / C02_objstm_index / C02_defaults / C02_literals":
         "proved (round 2) about definitions REGENERATED from the Python source (Gen/Xref.lean)",
@@ -806,6 +808,7 @@ def written_plan_lines(layout: Dict[str, Any], revs: List[CW.Rev]) -> List[str]:
         rev = revs[k]
         direct = {o["n"] for o in layout["objects"] if o["rev"] == k}
         for part in reversed(sec["parts"]):
+            part["_sub"] = j
             lines.append(f"wtr {rev.root} {opt(rev.info)}")
             if part["kind"] == "table":
                 for e in part["entries"]:
@@ -876,6 +879,7 @@ def tie_case(ctx: C.Ctx, case: Dict[str, Any], data: bytes, layout: Dict[str, An
     eol_name = {"\n": "lf", "\r\n": "crlf", "\r": "cr"}[case["eol"]]
     ee_name = {" \n": "splf", "\r\n": "crlf", " \r": "spcr"}[case["entry_eol"]]
     twins = []
+    tlists: List[str] = []
     for sec in layout["sections"]:
         for part in sec["parts"]:
             if part["kind"] == "table":
@@ -886,6 +890,7 @@ def tie_case(ctx: C.Ctx, case: Dict[str, Any], data: bytes, layout: Dict[str, An
                                                  ",".join("%d/%d/%s" % ents[n][1:4] for n in range(s0, s0 + c0))))
                 q = f"q.render {eol_name} {ee_name} {';'.join(subs) if subs else '-'}"
                 twins.append((q, C.hx(data[part["after_kw"] + len(case["eol"]):part["trailer_at"]])))
+                tlists.append(f"q.tablelists {part['_sub']} {';'.join(subs) if subs else '-'}")
             else:
                 q = "q.encrows %s %s" % (csv(part["w"]), ",".join("%d/%d/%d" % r[1:4] for r in part["rows"]) or "-")
                 twins.append((q, C.hx(part["data"])))
@@ -897,6 +902,7 @@ def tie_case(ctx: C.Ctx, case: Dict[str, Any], data: bytes, layout: Dict[str, An
     qwritten = f"q.written 0 {bound}"
     qlines.append(qwritten)
     qlines.append("q.chain")
+    qlines += tlists
     out = ctx.driver.ask(lines + qlines)
     inp = {"kind": "history", "case": case, "queries": queries}
     if any(o != "ok" for o in out[:nsetup]):
@@ -918,6 +924,11 @@ def tie_case(ctx: C.Ctx, case: Dict[str, Any], data: bytes, layout: Dict[str, An
     ctx.branch("twin:q.written:" + r[qwritten].replace(" ", ",") + (":index-overshoot/self-stm" if special else ""))
     if r[qwritten] != "true true true true" and not special:
         ctx.disagree("writer-twin q.written", inp, "true true true true", r[qwritten])
+    # hypothesis of C02_table_lists: every classic table holds the same (number, entry) pairs as the Lean writer's list
+    for q in tlists:
+        ctx.branch("hyp:tablelists:" + r[q])
+        if r[q] != "true":
+            ctx.disagree("q.tablelists", inp, "true", r[q])
     # hypothesis of C02_chain_checked: the file's sections form a chain of plain / hybrid revisions
     selfprev = any(p.get("self_prev") for p in case["plans"])
     ctx.branch("hyp:chain:" + r["q.chain"].replace(" ", ",") + (":self-prev" if selfprev else ""))
